@@ -31,6 +31,24 @@ var families = map[string]func(r *rand.Rand, i int) *Program{
 	"reap":      genReap,
 	"eqprio":    genEqPrio,
 	"shrink":    genShrink,
+	"stale":     genStale,
+}
+
+// stale: the event loop of the previous run is parked in the middle of reserve() (after it loaded
+// curProcessing and the limit) across a TunePool down and a Restart, and released when everybody else
+// is at rest: the check-then-act of reserve() against a second dispatcher. Worker functions are gated.
+func genStale(r *rand.Rand, i int) *Program {
+	p := &Program{Kind: "plain", Conc: 2 + r.Intn(2), Queues: []string{qkind(r)}, Gate: true,
+		Hold: "worker.reserve worker#1.curProcessing load|worker.reserve worker#1.concurrency load|1"}
+	t := []Op{{Op: "add", K: 0}, {Op: "add", K: 1}, {Op: "release", K: 0}, {Op: "jresult", K: 0}, {Op: "tune", N: 1}, {Op: "restart"},
+		{Op: "release", K: 1}, {Op: "jresult", K: 1}, {Op: "add", K: 2}, {Op: "add", K: 3}, {Op: "waitidle"}, {Op: "counts"}, {Op: "releaseall"}, {Op: "wuf"}}
+	if r.Intn(3) == 0 {
+		// variants: no TunePool (the bound is then the original limit), or Restart before TunePool
+		t = []Op{{Op: "add", K: 0}, {Op: "add", K: 1}, {Op: "release", K: 0}, {Op: "jresult", K: 0}, {Op: "restart"}, {Op: "tune", N: 1},
+			{Op: "release", K: 1}, {Op: "jresult", K: 1}, {Op: "add", K: 2}, {Op: "add", K: 3}, {Op: "waitidle"}, {Op: "counts"}, {Op: "releaseall"}, {Op: "wuf"}}
+	}
+	p.Threads = [][]Op{t}
+	return p
 }
 
 // shrink: a pool kept full by a high minimum-idle ratio is tuned down while new jobs are dispatched
@@ -89,6 +107,17 @@ func genReap(r *rand.Rand, i int) *Program {
 	p.Threads = [][]Op{a}
 	if r.Intn(3) == 0 {
 		p.Threads = append(p.Threads, []Op{{Op: "yield"}, {Op: "yield"}, {Op: "add", K: 50}, {Op: "counts"}})
+	}
+	if r.Intn(3) == 0 {
+		// the limit is tuned after the pool has grown, then time passes at rest: the reaper has to trim to
+		// the minimum of the NEW limit (non-default ratio, enough ticks at rest)
+		p.Conc = 4 + r.Intn(3)
+		p.MinIdle = []int{50, 34, 100}[r.Intn(3)]
+		p.MaxTicks = 4 + r.Intn(3)
+		g2 := &gen{r: r}
+		t := g2.adds(p.Conc)
+		t = append(t, Op{Op: "wuf"}, Op{Op: "tune", N: []int{1, 2, 8, 12}[r.Intn(4)]}, Op{Op: "advance", N: 5000}, Op{Op: "ticks"}, Op{Op: "counts"})
+		p.Threads = [][]Op{t}
 	}
 	return p
 }
@@ -607,6 +636,13 @@ func genStatus(r *rand.Rand, i int) *Program {
 		}
 	}
 	p.Threads = [][]Op{a, b}
+	if r.Intn(3) == 0 && g.k > 0 {
+		// a pending job is cancelled while the pool is busy; samplers keep reading its status while the
+		// dispatcher later dequeues and skips it
+		k := g.k - 1
+		p.Threads = append(p.Threads, []Op{{Op: "jclose", K: k}, {Op: "jstatus", K: k}, {Op: "jstatus", K: k}, {Op: "jstatus", K: k}, {Op: "jstatus", K: k}})
+		p.Conc = 1
+	}
 	if r.Intn(3) == 0 {
 		// an owner that closes its handle as soon as the outcome is delivered
 		k := r.Intn(g.k)
